@@ -39,10 +39,10 @@ def main():
     else:
         files = [f for f in V.corpus_files() if os.path.getsize(f) < 600000]
         pick = sorted(rng.sample(files, min(len(files), 26 if tier == "quick" else 400)))
-        # modules known to use new-note actions (background voices of a muted channel must be silent too)
-        pick += [f for f in files if os.path.basename(f) in ("CarryNNA.it", "NoteOffInstr.it", "4th_Symmetriad.it", "NNA.it", "nna.it") and f not in pick]
+        # modules that have background (new-note-action) voices within their first 50 frames: those of a muted channel must be silent too
+        pick += [f for f in files if os.path.basename(f) in ("DNA-NoInstr.it", "SwapNNA.it", "dct_smp_note_test.it", "duplicate_check_transpose.it", "it_fade_env_reset.it", "it_note_delay_nna.it", "portamento_nna_sample.it") and f not in pick]
         for f in pick:
-            mods.append((f, rng.choice((8000, 11025, 22050, 44100)), 0, 36 if tier == "quick" else 120, rng.choice((0, 1, 2)), rng.choice((10, 30, 50, 70, 100))))
+            mods.append((f, rng.choice((8000, 11025, 22050, 44100)), 0, 50 if tier == "quick" else 120, rng.choice((0, 1, 2)), rng.choice((10, 30, 50, 70, 100))))
     stats = {"modules": 0, "solo_runs": 0, "frames_summed": 0, "samples_summed": 0, "gain_checks": 0, "skipped_many_channels": 0, "skipped_eviction_frames": 0,
              "sep_checked": 0, "sep_skipped_stereo_or_surround": 0, "silence_runs": 0, "clipped_samples_skipped": 0}
     for (path, rate, fmt, frames, interp, sepv) in mods:
